@@ -530,6 +530,24 @@ def main(out_dir):
                                         pairs.append((k.value, '<expr>'))
         ctor = [p_ for p_ in init_params(t, cname)]
         todict.append({'class': cname, 'pairs': pairs, 'ctor': ctor})
+    # ---- the replay record: get_dict_with_id of the composition classes (key, attribute read)
+    record = []
+    for cname in ('BaseCompose', 'Compose'):
+        pairs = []
+        for c in reversed(t.mro(cname)) if cname in t.classes else []:
+            for b in t.classes[c][0].body:
+                if isinstance(b, ast.FunctionDef) and b.name == 'get_dict_with_id':
+                    for n in ast.walk(b):
+                        if isinstance(n, ast.Dict):
+                            for k, v in zip(n.keys, n.values):
+                                if isinstance(k, ast.Constant) and isinstance(k.value, str):
+                                    if isinstance(v, ast.Attribute) and isinstance(v.value, ast.Name) and v.value.id == 'self':
+                                        pairs.append((k.value, v.attr))
+                                    elif isinstance(v, ast.Constant):
+                                        pairs.append((k.value, '<const>'))
+                                    else:
+                                        pairs.append((k.value, '<expr>'))
+        record.append({'class': cname, 'pairs': pairs})
     # ---- emit
     lines = ['(* GENERATED by /verif/translator/classtab.py from the package sources -- do not edit *)',
              'From Coq Require Import List String Bool.', 'Import ListNotations.', 'Open Scope string_scope.', '',
@@ -562,12 +580,17 @@ def main(out_dir):
     lines.append(';\n'.join('  (%s, [%s], %s)' % (q(d['class']), '; '.join('(%s, %s)' % (q(k), q(a)) for k, a in d['pairs']),
                                                   slist(d['ctor'])) for d in todict))
     lines.append('].')
+    lines.append('')
+    lines.append('(* get_dict_with_id (the replay record) of the composition classes: class, [(key, attribute read)] *)')
+    lines.append('Definition record_table : list (string * list (string * string)) := [')
+    lines.append(';\n'.join('  (%s, [%s])' % (q(d['class']), '; '.join('(%s, %s)' % (q(k), q(a)) for k, a in d['pairs'])) for d in record))
+    lines.append('].')
     text = '\n'.join(lines) + '\n'
     path = os.path.join(out_dir, 'Gen_classtab.v')
     old = open(path).read() if os.path.exists(path) else None
     if old != text:
         open(path, 'w').write(text)
-    json.dump({'todict': todict, 'classes': rows, 'entropy': ent, 'mutation': [m for m in mut if m['flags']], 'errors': t.errors,
+    json.dump({'todict': todict, 'record': record, 'classes': rows, 'entropy': ent, 'mutation': [m for m in mut if m['flags']], 'errors': t.errors,
                'functions_analysed': len(mut)}, open(os.path.join(out_dir, 'classtab_manifest.json'), 'w'), indent=1)
     print('classtab: %d classes, %d entropy rows, %d mutation flags, %d errors'
           % (len(rows), len(ent), sum(1 for m in mut if m['flags']), len(t.errors)))
